@@ -373,7 +373,10 @@ def run(ctx):
             else:
                 r4.violation(label, "inc_hdr_len(data, %d) announces %d bytes but %d bytes are appended: every later header "
                                     "extension is mis-located by the receiver" % (words, words * 4, nbytes), loc(f.sp))
-    r1.floor(13, "writers")
+    # the narrow leaves the layouts rely on are really that narrow
+    from . import c10
+    c10.fdtid_width_rule(ctx, r1)
+    r1.floor(15, "writers + leaf widths")
     # other inc_hdr_len callers (push_sct: variable number of words)
     for s in find_calls(prog, r"^common::lct::inc_hdr_len$"):
         caller = s.func.root().path
